@@ -220,7 +220,24 @@ def run_case(vk, case):
         return {"req": {"op": "prof_add", "p": {"b": mballs[:cut], "c": []}, "q": {"b": mballs[cut:], "c": []}},
                 "expect": {"ok": exp}, "monitors": monitors, "tags": tags, "nontrivial": nontrivial}
     if op == "derived":
-        p = vk.PreferenceProfile(ballots=tuple(ballots))
+        import dataclasses as _dc, random as _r
+        how = _r.Random(len(bs) * 7919 + len(nm)).choice(["plain", "stale-args", "replace"])
+        tags.append(f"derived:{how}")
+        if how == "stale-args":
+            # the derived fields are constructor fields too: whatever is passed for them, they must come out as the
+            # ballots imply
+            built = run_impl(lambda: vk.PreferenceProfile(ballots=tuple(ballots), candidates_cast=("Zed", nm[0]),
+                                                          num_ballots=len(bs) + 3, total_ballot_wt=Fraction(999)))
+        elif how == "replace":
+            # dataclasses.replace forwards the old derived fields of another profile to the constructor
+            other = vk.PreferenceProfile(ballots=(vk.Ballot(ranking=tuple(frozenset({c}) for c in nm), weight=Fraction(5)),))
+            built = run_impl(lambda: _dc.replace(other, ballots=tuple(ballots), candidates=()))
+        else:
+            built = run_impl(lambda: vk.PreferenceProfile(ballots=tuple(ballots)))
+        if built[0] != "ok":
+            fail("derived-fields", f"construction ({how}) raised {built[2]}", "derived")
+            return {"req": None, "expect": None, "monitors": monitors, "tags": tags, "nontrivial": nontrivial}
+        p = built[1]
         tot = sum((exact_weight(b["wpy"]) for b in bs), Fraction(0))
         # cast candidates are those on ballots that carry weight (the code's and the model's `weight > 0`)
         pos = [b for b in bs if exact_weight(b["wpy"]) > 0]
